@@ -18,16 +18,30 @@ for sid in sorted(os.listdir(os.path.join(V, "seeded"))):
     S = f"/root/scratch-reg-{sid}"
     shutil.rmtree(S, ignore_errors=True)
     os.makedirs(S)
-    subprocess.run(f"git -C /repo archive HEAD | tar -x -C {S} && cd {S} && git init -q . && git apply --whitespace=nowarn {d}/patch.diff",
-                   shell=True, check=False, capture_output=True)
+    r = subprocess.run(f"git -C /repo archive HEAD | tar -x -C {S} && cd {S} && git init -q . && "
+                       f"(git apply --whitespace=nowarn {d}/patch.diff || patch -p1 -F3 -s --no-backup-if-mismatch < {d}/patch.diff)",
+                       shell=True, check=False, capture_output=True, text=True)
+    if r.returncode != 0:
+        print(f"{sid:10s} PATCH DOES NOT APPLY to the current HEAD: {r.stderr.strip()[:200]}", flush=True)
+        rows.append((sid, None, {}, False))
+        shutil.rmtree(S, ignore_errors=True)
+        continue
     demo = subprocess.run(["/venv/bin/python", os.path.join(d, "demo.py"), S], capture_output=True).returncode
     res = {}
     for c in meta["caught_by"]:
         p = subprocess.run(["/venv/bin/python", os.path.join(V, "run"), "check", c, "--tier", "quick"],
                            env=dict(os.environ, VERIF_REPO=S), capture_output=True, text=True)
         res[c] = p.returncode
+        if p.returncode == 1:
+            files = [l.split("replay=")[1].strip() for l in p.stdout.splitlines() if l.startswith("VIOLATION")]
+            if files:
+                r1 = subprocess.run(["/venv/bin/python", os.path.join(V, "run"), "replay", files[0]],
+                                    env=dict(os.environ, VERIF_REPO=S), capture_output=True, text=True).returncode
+                r0 = subprocess.run(["/venv/bin/python", os.path.join(V, "run"), "replay", files[0]], capture_output=True,
+                                    text=True).returncode
+                res[c + ":replay(mutant,repo)"] = (r1, r0)
     shutil.rmtree(S, ignore_errors=True)
-    ok = demo != 0 and all(v == 1 for v in res.values())
+    ok = demo != 0 and all((v == 1 if not isinstance(v, tuple) else v == (1, 0)) for v in res.values())
     rows.append((sid, demo, res, ok))
     print(f"{sid:10s} demo_exit={demo} checks={res} {'OK' if ok else 'PROBLEM'}", flush=True)
 bad = [r for r in rows if not r[3]]
